@@ -127,8 +127,13 @@ def run(tier, seed, workers=None):
         required_statuses=['Merged', 'Queued', 'SuccessMessage'],
         nontrivial_stat='c01_dest_changed',
         rule='BFS over event histories (eval_pr, ci_int, ci_q_all S/F, '
-             'eval_commit, push, admin jobs) of two pull requests with '
-             'different first targets, real Bert-E + mock host + real git; '
+             'eval_commit, push, admin jobs) of two pull requests (same and '
+             'different first targets), also with developer commits on '
+             'integration branches (plain, revert to the destination tree), '
+             'merge conflicts resolved by hand (integration branch created '
+             'by the developer, destination merged into the source) and '
+             'create_branch jobs with explicit branching points; real '
+             'Bert-E + mock host + real git; '
              'distinct_nontrivial = transitions on which a destination ref '
              'moved (monitor evaluated the inclusion chain before/after)',
         assumptions=[
